@@ -187,11 +187,13 @@ CHECKS["C16"] = dict(
 
 CHECKS["C07"] = dict(
     text="The add-word command is specified as the step sequence Load / Append / Create(truncate) / WriteFlush / Done "
-         "over a dictionary file, with Crash enabled between any two steps and case-folded word ids "
+         "over a dictionary file (absent, empty, or hand-written with or without a final line terminator), with Crash "
+         "enabled between any two steps and case-folded word ids "
          "(spec/DictFile.tla); TLC checks that the file always reloads to the words added so far (a crash may lose at "
          "most the word in flight), with the two deviations the code is known to have named explicitly so that any "
          "other route to a loss is still reported. On the real harper-ls Backend (in process, real directory, two open "
          "documents) every await point of a save is turned into a crash by dropping the command's future after k polls, "
+         "dictionary files that exist before the server starts (LF/CRLF, last line terminated or not) are extended, "
          "and random histories of user/file adds, restarts and crashes are run; after every step the files are read "
          "back and both documents re-published; the stateful trace spec (spec/trace/Trace_DictFile.tla) checks reload = "
          "added, added words no longer reported, file-dictionary words confined to their file, other lints unchanged.",
@@ -202,15 +204,19 @@ CHECKS["C07"] = dict(
 
 CHECKS["C09"] = dict(
     text="The server's document handling is specified with one program counter per in-flight handler at the code's "
-         "await points (configuration round trip, dictionary load, document-state lock, publish) in spec/LspServer.tla; "
+         "await points (configuration round trip, dictionary load, document-state lock, publish; store / rebuild / "
+         "per-document publish for didChangeConfiguration) in spec/LspServer.tla, with the client's configuration, the "
+         "server's copy and the configuration each document's linter was built with; "
          "TLC explores every interleaving of up to MaxInFlight handlers over 2 documents and checks the quiescent "
          "last-word invariant, with overlapping handlers for one document as the explicitly named deviation so that any "
          "other route to a stale last word is reported. On the real Backend (in process) every sequential history of "
          "two messages of every kind per document kind (saved .txt, saved .md, untitled) is run, and batches of 2-4 "
          "messages sent back to back are run under explicit schedules (handler futures polled by the harness, "
-         "configuration answers delivered in every/random order); the stateful trace spec "
-         "(spec/trace/Trace_LspServer.tla) tracks the client's newest text and the last publish per url.",
-    note="Trusted: TLC; the published text is identified through per-text misspellings. Interleavings inside the "
+         "configuration answers delivered in every/random order), plus re-opens, returning texts and walks over every "
+         "ordered pair of five configurations; the stateful trace spec (spec/trace/Trace_LspServer.tla) tracks the "
+         "client's newest text and configuration and the last publish per url.",
+    note="Trusted: TLC; a publish is identified as the (text, configuration) pairs for which a fresh server publishes "
+         "exactly these diagnostics (reference table built at the start of the run). Interleavings inside the "
          "dictionary-loading part are left to the runtime (no gating hooks).",
     ref="4 C09", technique="TLA+ model checking (TLC) + schedule replay on the real server + stateful trace validation")
 
@@ -218,8 +224,10 @@ CHECKS["C10"] = dict(
     text="The side effects a Harper process may perform are specified as an alphabet per mode (stdio server, loopback "
          "TCP server, library) in spec/EffectsOps.tla, and a small automaton of the server's life (listener set-up, "
          "serving, save_dict windows, save_stats at shutdown) is model-checked against it. The real harper-ls binary, "
-         "built from /repo, is run under strace -f through a complete LSP session in stdio mode and one in TCP mode "
-         "(every notification and command except the user-initiated HarperOpen), as is a process that only uses the "
+         "built from /repo, is run under strace -f through a complete LSP session in stdio mode, one in TCP mode, one over "
+         "dictionaries and a statistics file that already exist in states a user may have left them in, and random "
+         "sessions over 18 language ids whose prose names hosts, addresses and files (every notification and command "
+         "except the user-initiated HarperOpen; code actions requested at every position), as is a process that only uses the "
          "library, the comment parsers and the JS-facing API; every network call and every write-open / mkdir / rename / "
          "unlink becomes a Sys event that TLC validates against the alphabet (spec/trace/Trace_Effects.tla). The "
          "resolved normal+build dependency set of the shipped crates (cargo metadata) is checked against the spec's "
